@@ -25,6 +25,7 @@ func runNI(c *Ctx) (obls []Obl) {
 	niWidth(c, a)
 	niWriters(c, a)
 	niHeaders(c, a)
+	niCreator(c, a)
 	return
 }
 
@@ -626,4 +627,73 @@ func niWriters(c *Ctx, a *flAgg) {
 			}
 		}
 	}
+}
+
+// niCreator (NI-creator): the creator shown in a console header is the first
+// frame of the creation stack — the frame that ran the go statement (a race
+// report lists the whole creation stack below it) — the same element the HTML
+// template shows (`index .CreatedBy.Calls 0`): the two renderers are siblings
+// and must agree. Decided on every function of package internal that indexes
+// a CreatedBy.Calls list.
+func niCreator(c *Ctx, a *flAgg) {
+	// what the HTML sibling uses
+	htmlIdx := -1
+	if tpl, ok := indexHTMLConst(c); ok {
+		const pat = "index $e.CreatedBy.Calls "
+		for rest := tpl; ; {
+			i := strings.Index(rest, pat)
+			if i < 0 {
+				break
+			}
+			rest = rest[i+len(pat):]
+			n := 0
+			j := 0
+			for j < len(rest) && rest[j] >= '0' && rest[j] <= '9' {
+				n = n*10 + int(rest[j]-'0')
+				j++
+			}
+			if j > 0 && (htmlIdx == -1 || htmlIdx == n) {
+				htmlIdx = n
+			} else {
+				htmlIdx = -2
+			}
+		}
+	}
+	n := 0
+	for _, f := range c.L.SrcFuncs("internal") {
+		for _, b := range f.Blocks {
+			for _, in := range b.Instrs {
+				ia, ok := in.(*ssa.IndexAddr)
+				if !ok {
+					continue
+				}
+				ld, ok := ia.X.(*ssa.UnOp)
+				if !ok {
+					continue
+				}
+				fa, ok := ld.X.(*ssa.FieldAddr)
+				if !ok || addrLast(fa) != "Calls" {
+					continue
+				}
+				outer, ok := fa.X.(*ssa.FieldAddr)
+				if !ok || addrLast(outer) != "CreatedBy" {
+					continue
+				}
+				n++
+				key := funcKey(f) + "/creator-index"
+				k, isC := bnConst(ia.Index)
+				switch {
+				case !isC:
+					a.bad("NI-creator", key, "the creator shown in the header is not a fixed element of the creation stack: the goroutine's creator is its first frame (index 0), the element the HTML view shows", ia.Pos())
+				case k != 0:
+					a.bad("NI-creator", key, fmt.Sprintf("the header shows element %d of the creation stack; the creator is element 0", k), ia.Pos())
+				case htmlIdx >= 0 && int64(htmlIdx) != k:
+					a.bad("NI-creator", key, fmt.Sprintf("console shows element %d, the HTML template element %d", k, htmlIdx), ia.Pos())
+				default:
+					a.ok("NI-creator", key, "the header names the first frame of the creation stack, as the HTML template does", ia.Pos())
+				}
+			}
+		}
+	}
+	c.stat("NI", "creator_index_sites", n)
 }
